@@ -89,7 +89,8 @@ FUNC = "fun c => match c with (m, mem, ms, fr, out) => check_run m mem ms no_pre
 
 def jsonable(c, out):
     return dict(frames=[f.tolist() for f in c['frames']], search_range=[str(x) for x in c['sr']] if isinstance(c['sr'], tuple) else str(c['sr']),
-                memory=c['memory'], max_size=c['max_size'], link_strategy=c['strategy'], impl_labels=out)
+                memory=c['memory'], max_size=c['max_size'], link_strategy=c['strategy'], impl_labels=out,
+                **({'search_range_spelling': c['sr_spell']} if c.get('sr_spell') else {}))
 
 
 def numba_cap_binding(c):
